@@ -21,8 +21,31 @@ ASSUMPTIONS = ["naga's member offsets / spans / strides are the WGSL layout: che
 TRUSTED_EXTRA = ["Python implementation of the WGSL layout rules (lib/structgen.py) used as ground truth"]
 
 
+ROLE_A = ("struct Instance { @location(4) offset: vec4<f32>, @location(5) tint: vec4<f32> }\n"
+          "@group(0) @binding(0) var<storage, read_write> instances: array<Instance>;\n"
+          "@compute @workgroup_size(64) fn cull() { instances[0].tint = vec4<f32>(1.0); }\n")
+ROLE_B = ("struct Instance { @location(4) offset: vec4<f32>, @location(5) tint: vec4<f32> }\n"
+          "@vertex fn vs_main(i: Instance) -> @builtin(position) vec4<f32> { return i.offset; }\n")
+
+
 def cases(rng, tier):
-    return structcases.cases(rng, tier, big_arrays=True)
+    out = structcases.cases(rng, tier, big_arrays=True)
+    # the same struct definition in two modules generated one after the other with the same options: host-shareable
+    # (storage element) in one, a plain vertex input in the other - its derives follow ITS role in THAT module
+    pairs = []
+    for o in (rng.sample(structcases.ALL_OPTS, 6) + [dict(structcases.ALL_OPTS[0], bm_vertex=True, encase=True)]):
+        if o.get("mv") == "Nalgebra" and o.get("encase"):
+            continue
+        o = dict(o, encase=True, bm_host=False)      # the runtime-sized array needs encase and no host bytemuck
+        for w, host in ((ROLE_A, True), (ROLE_B, False), (ROLE_A, True), (ROLE_B, False)):
+            pairs.append({"wgsl": w, "family": "same_struct_two_roles", "opts": dict(o), "needs_encase": host,
+                          "truth": [{"name": "Instance", "host": host, "rts": False, "size": 32,
+                                     "offsets": [("offset", 0), ("tint", 16)],
+                                     "members": [("offset", "(SArr 4%N (SScalar PF32))"), ("tint", "(SArr 4%N (SScalar PF32))")]}]})
+    out = pairs + out
+    for c in out:
+        c["want_rest"] = True
+    return out
 
 
 ELIGIBLE = lambda c: not (c["opts"].get("mv") == "Nalgebra" and c["opts"].get("encase"))
@@ -30,10 +53,25 @@ ELIGIBLE = lambda c: not (c["opts"].get("mv") == "Nalgebra" and c["opts"].get("e
 
 def run_cases(plain, cases_, workdir, tag):
     # behavioural level: the first 40 eligible modules are compiled (all real derive crates present) and probed
-    return obs.attach(plain, cases_, workdir, tag, ELIGIBLE, 40 if "search" not in tag else 0)
+    res = obs.attach(plain, cases_, workdir, tag, ELIGIBLE, 40 if "search" not in tag else 0)
+    # "no option changes any part of the output other than the part it documents": for one shader, everything except
+    # the Rust structs of WGSL structs (and their layout assertions) is the same text under every option set
+    by_src = {}
+    for c, r in zip(cases_, res):
+        if r.get("result") == "ok" and r.get("rest") is not None:
+            by_src.setdefault(c["wgsl"], []).append((c, r))
+    for group in by_src.values():
+        c0, r0 = group[0]
+        for c, r in group[1:]:
+            if r["rest"] != r0["rest"]:
+                r["rest_differs"] = "the part of the module outside the struct definitions differs between option sets %s and %s" % (c0["opts"], c["opts"])
+    return res
 
 
 def _obs(c, r):
+    if r.get("rest_differs"):
+        c["note"] = r["rest_differs"]
+        return "false"
     if "obs" not in r or r.get("result") != "ok":
         return "true"
     if obs.not_compiled(r):
@@ -49,7 +87,7 @@ def _obs(c, r):
 
 
 def verdict_expr_noout(c, r, ir):
-    if "obs" not in r:
+    if "obs" not in r and not r.get("rest_differs"):
         return None
     return "[true; false; %s]" % _obs(c, r)
 
